@@ -40,7 +40,10 @@ struct MemLog {
     static void Install() { Teakra::Verif::mem_observer = &MemLog::Observer; }
 };
 
-inline u16 DataPattern(u32 a) { return (u16)(a * 0x9E37u + 0x1234u); } // bijective on 16 bits
+// pre-fill pattern of data memory: bijective on 16 bits for any odd multiplier. A harness may re-salt it (before it
+// constructs a Machine) so that different workers/seeds run on different memory contents.
+inline u32 g_data_pattern_mul = 0x9E37u, g_data_pattern_add = 0x1234u;
+inline u16 DataPattern(u32 a) { return (u16)(a * g_data_pattern_mul + g_data_pattern_add); }
 inline u16 ProgPattern(u32 a) { return (u16)(a * 0x6C8Fu + 0x4321u); }
 
 constexpr u32 kDataBase = 0x20000;
